@@ -7,20 +7,23 @@ package wire
 import (
 	"errors"
 	"io"
+
+	"github.com/netflix/rend/zz_verif/rt"
 )
 
 // Client is the client end of a connection as the server sees it: a scripted byte stream
 // (optionally delivered in segments), then either EOF (client went away) or a blocking read
 // (client is waiting for its reply), and a capture of everything the server wrote.
 type Client struct {
-	In      []byte
-	pos     int
-	Cuts    []int // deliver at most up to these absolute offsets per Read (segmentation)
-	EOF     bool  // after the script: EOF (true) or "client waits" (false)
-	Out     []byte
-	Closed  int
-	Blocked int // reads attempted after the script ended while the client waits
-	Reads   int
+	In       []byte
+	pos      int
+	Cuts     []int // deliver at most up to these absolute offsets per Read (segmentation)
+	EOF      bool  // after the script: EOF (true) or "client waits" (false)
+	Out      []byte
+	Closed   int
+	Blocked  int // reads attempted after the script ended while the client waits
+	Reads    int
+	EOFReads int
 }
 
 // ErrWouldBlock is what a read returns when the client has sent everything and is waiting:
@@ -34,6 +37,12 @@ func (c *Client) Read(p []byte) (int, error) {
 	}
 	if c.pos >= len(c.In) {
 		if c.EOF {
+			// a server that keeps reading a connection the client has closed is spinning
+			c.EOFReads++
+			if c.EOFReads > 64 {
+				rt.Fail("c11-keeps-reading-after-the-client-is-gone", "more than 64 reads after EOF")
+				rt.Stop()
+			}
 			return 0, io.EOF
 		}
 		c.Blocked++
